@@ -114,6 +114,14 @@ func (r *Rec) around(kind string, args []cq.V, real func() error) error {
 	idx := len(r.Trace)
 	r.Trace = append(r.Trace, Call{Kind: kind, Args: args, OK: true})
 	r.Natural = append(r.Natural, false)
+	defer func() {
+		// a callee that panics did not succeed, whoever recovers further up
+		if x := recover(); x != nil {
+			r.Trace[idx].OK = false
+			r.Natural[idx] = true
+			panic(x)
+		}
+	}()
 	err := real()
 	if err != nil {
 		r.Trace[idx].OK = false
